@@ -206,6 +206,22 @@ def whole_sequence(ctx, folds):
                     continue     # a block on a cycle that is not a loop head of a writing loop
                 if ex[0] == "bad":
                     ok_loops = False
+                elif ex[0] == "template":
+                    # the elements of the literal table on this very path: the iterator whose next() answered None at this head
+                    els = None
+                    seen_head = False
+                    for e2 in lf.events:
+                        if e2[0] == "enter" and e2[1] == p[1]:
+                            seen_head = True
+                        elif seen_head and e2[0] == "cond" and e2[3][0] == "discr" and is_call(look(e2[3][1]), "next") and option_is_some(e2[4]) is False:
+                            els = literal_elements(look(e2[3][1])[2][0])
+                            break
+                    if els is None:
+                        ok_loops = False
+                    else:
+                        for el in els:
+                            for q in ex[1]:
+                                seq.append(_piece(facts, subst_term(q[1], ("ITEM",), norm(el)), folds) if q[0] == "T" else q)
                 elif ex[0] == "pieces":
                     seq.extend(ex[1])
                 else:
@@ -221,11 +237,24 @@ def whole_sequence(ctx, folds):
                 prev = norm_seq.pop() if norm_seq else None
                 first_ok = prev is not None and prev[0] == "T" and is_call(prev[1], "common::Method::raw") and payload_of(prev[1][2][0]) is not None and norm(_iter_source(payload_of(prev[1][2][0])[2][0])) == norm(p[2])
                 norm_seq.append(("ALLOW",) if first_ok else ("BADALLOW",))
+            elif p[0] == "ALLOW" and p[1] == "C":
+                norm_seq.append(("ALLOW-C", p[2]))
             elif p[0] == "ALLOW":
                 norm_seq.append(("ALLOW",))
             else:
                 norm_seq.append(p)
-        seq = _join(norm_seq)
+        # form C: the loop over all but the last element is followed by Method::raw(last)
+        seq2 = []
+        for p in norm_seq:
+            if seq2 and seq2[-1][0] == "ALLOW-C":
+                sl = seq2[-1][1]
+                a = look(p[1][2][0]) if p[0] == "T" and is_call(p[1], "common::Method::raw") else None
+                last_ok = a is not None and a[0] == "field" and a[3] == "0" and payload_of(a[1]) is not None and norm(payload_of(a[1])) == norm(sl)
+                seq2[-1] = ("ALLOW",) if last_ok else ("BADALLOW",)
+                if last_ok:
+                    continue
+            seq2.append(p)
+        seq = _join(seq2)
         # the path's own conditions
         fl = flags_of(lf)
         has_allow = any(p[0] == "ALLOW" for p in seq)
@@ -274,6 +303,8 @@ def flags_of(lf):
                 fl["length"] = v
             elif resp_field(x[2][0], "body"):
                 fl["body"] = v
+        elif x[0] == "discr" and fl["allow_nonempty"] is None and is_call(look(x[1]), "split_last", "split_first", "first", "last") and resp_field(look(x[1])[2][0], "headers", "allow") and option_is_some(c) is not None:
+            fl["allow_nonempty"] = option_is_some(c)
         elif x[0] == "discr" and fl["allow_nonempty"] is None:
             # first element of self.allow taken with next(): Some = non-empty
             y = look(x[1])
@@ -337,7 +368,42 @@ def matches(seq, exp):
     return True
 
 
-REORDERING = ("rev", "skip", "take", "filter", "step_by", "skip_while", "take_while", "peekable", "chain", "cycle", "map", "zip")
+REORDERING = ("rev", "skip", "take", "filter", "step_by", "skip_while", "take_while", "peekable", "cycle", "map", "zip")
+
+
+def literal_elements(it):
+    """Element terms, in iteration order, of an iterator over literals: iter(array literal) | A.chain(B) | iter(Some(x)) | iter(None)."""
+    it = _iter_source(it)
+    if is_call(it, "chain") and len(it[2]) == 2:
+        a, b = literal_elements(it[2][0]), literal_elements(it[2][1])
+        return None if a is None or b is None else a + b
+    if is_call(it, "iter", "into_iter") and it[2]:
+        src = look(it[2][0])
+        while src[0] == "mut":
+            src = look(src[1])
+        if src[0] == "array":
+            return list(src[1])
+        if src[0] == "agg" and src[1].startswith("std::option::Option"):
+            return [src[3][0]] if src[2] == "Some" else []
+    return None
+
+
+def subst_term(t, old, new):
+    """t with every occurrence of the (normed) term `old` replaced by `new`; projections of literal tuples are folded."""
+    if not isinstance(t, tuple) or not t:
+        return t
+    if t == old:
+        return new
+    out = tuple(subst_term(x, old, new) if isinstance(x, tuple) else x for x in t)
+    if out and out[0] in ("deref", "ref") and len(out) >= 2 and isinstance(out[1], tuple) and out[1] and out[1][0] in ("tuple",):
+        return out
+    if out and out[0] == "field" and isinstance(out[1], tuple) and out[1]:
+        b = out[1]
+        while b[0] in ("deref", "ref"):
+            b = b[1]
+        if b[0] == "tuple" and str(out[3]).isdigit() and int(out[3]) < len(b[1]):
+            return b[1][int(out[3])]
+    return out
 
 
 def classify_loop(ctx, fn, H, bodies, folds):
@@ -376,17 +442,40 @@ def classify_loop(ctx, fn, H, bodies, folds):
     if is_call(src_it, "enumerate"):
         enumerated = True
         src_it = _iter_source(src_it[2][0])
-    base = look(src_it[2][0]) if is_call(src_it, "iter", "into_iter") and src_it[2] else None
-    # (a) literal array of byte strings
-    arr = base
-    while arr is not None and arr[0] == "mut":
-        arr = look(arr[1])
-    if arr is not None and arr[0] == "array" and not enumerated:
-        ok = len(writing) == 1 and len(writing[0][2]) == 1 and writing[0][2][0][0] == "T" and is_item(writing[0][2][0][1])
-        ctx.ob("R05.1", "loop|array-in-order|bb%d" % int(H), ok, "a loop over a literal array writes each element once, in order", loc)
+    base = look(src_it[2][0]) if is_call(src_it, "iter", "into_iter") and src_it[2] else (look(src_it) if src_it[0] == "field" else None)
+    # (a) a literal table: an array literal, possibly chained with the items of an Option literal
+    elems = literal_elements(it)
+    if elems is not None:
+        # the body as a template over the loop item; which elements the table holds is read off each path (it may depend on a flag)
+        templates = set()
+        for lf, i1, body in writing:
+            nx = item_iter(lf, i1)
+            tpl = []
+            for p in body:
+                if p[0] == "T":
+                    old = None
+                    for st_ in subterms(p[1]):
+                        if isinstance(st_, tuple) and st_ and st_[0] in ("field", "payload") and payload_of(st_) is not None and nx is not None and norm(payload_of(st_)) == norm(nx):
+                            old = st_
+                            break
+                    tpl.append(("T", subst_term(p[1], old, ("ITEM",))) if old is not None else ("BAD",))
+                else:
+                    tpl.append(p)
+            templates.add(tuple(tpl))
+        ok = len(templates) == 1 and all(p[0] in ("C", "T") for p in list(templates)[0])
+        ctx.ob("R05.1", "loop|array-in-order|bb%d" % int(H), ok, "a loop over a literal table writes, for each element in order, the same pieces", loc)
         if not ok:
             return ("bad",)
-        return ("pieces", [_piece(facts, x, folds) for x in arr[1]])
+        return ("template", list(list(templates)[0]))
+    # the Allow list, form C: (last, others) = self.allow.split_last(); for m in others { raw(m) ", " }; raw(last)
+    if base is not None and base[0] == "field" and base[3] == "1":
+        sl = payload_of(base[1])
+        if sl is not None and is_call(sl, "split_last") and resp_field(sl[2][0], "headers", "allow") and not enumerated:
+            ok = len(writing) >= 1
+            for lf, i1, body in writing:
+                ok = ok and len(body) == 2 and body[1] == ("C", b", ") and body[0][0] == "T" and is_call(body[0][1], "common::Method::raw") and is_item(look(body[0][1][2][0]))
+            ctx.ob("R05.1", "allow|iteration", ok, "every element but the last is written as Method::raw(item) followed by ', ' (the last one follows the loop)", loc)
+            return ("ALLOW", "C", sl) if ok else ("bad",)
     # the Allow list
     if base is not None and resp_field(base, "headers", "allow"):
         def is_raw_item(p, enumerated_):
@@ -403,12 +492,12 @@ def classify_loop(ctx, fn, H, bodies, folds):
             for lf, i1, body in writing:
                 delim = None
                 for e in lf.events[i1:]:
-                    if e[0] == "cond" and e[3][0] == "bin" and e[3][1] == "Lt":
+                    if e[0] == "cond" and e[3][0] == "bin" and e[3][1] in ("Lt", "Ne"):
                         idx, bound = look(e[3][2]), look(e[3][3])
                         idx_ok = idx[0] == "field" and idx[3] == "0" and is_item(idx[1])
                         bound_ok = any(is_call(x, "len") and resp_field(x[2][0], "headers", "allow") for x in subterms(bound) if isinstance(x, tuple)) and any(x == ("const", 1) for x in subterms(bound)) and any(isinstance(x, tuple) and x and x[0] == "bin" and x[1].startswith("Sub") for x in subterms(bound))
                         if idx_ok and bound_ok:
-                            delim = truth(e[4])
+                            delim = truth(e[4])      # idx < len-1, or idx != len-1 (the same for 0 <= idx <= len-1)
                 if delim is None:
                     ok = False
                     continue
@@ -418,6 +507,7 @@ def classify_loop(ctx, fn, H, bodies, folds):
             ok = ok and variants == {True, False}
             ctx.ob("R05.1", "allow|iteration", ok, "each iteration writes Method::raw(item of self.allow, in order) followed by ', ' exactly when idx < len - 1", loc)
             return ("ALLOW", "A", None) if ok else ("bad",)
+        # form C: (item ", ") for every element but the last, then the last:  (last, others) = allow.split_last()
         # form B: (", " item) for every element after the first, which was taken from the same iterator
         ok = len(writing) >= 1
         for lf, i1, body in writing:
